@@ -548,7 +548,7 @@ def c19(ctx):
                 stream = make_stream(cfg)
                 from pyjelly.integrations.rdflib import serialize as rser
 
-                data_in = fam_rdflib.build(case["stmts"], case.get("ns", []), case["data"] == "dataset") if case["data"] != "gen" else iter(fam_rdflib.gen_tuples(case["stmts"]))
+                data_in = fam_rdflib.build(case["stmts"], case.get("ns", []), case["data"] == "dataset", case.get("empty_graphs", ())) if case["data"] != "gen" else iter(fam_rdflib.gen_tuples(case["stmts"]))
                 frs = [f.SerializeToString(deterministic=True) for f in rser.stream_frames(stream, data_in)]
                 impl = {"raised": False, "frames": frs}
             except Exception:  # noqa: BLE001
